@@ -344,7 +344,9 @@ Example per_match_multi_line_record_example :
      = [[49; 58; 51; 58; 48; 58; 97; 98; 99; 10]; [50; 58; 50; 58; 52; 58; 100; 101; 10]]%N.
 Proof. vm_compute. split; reflexivity. Qed.
 
-(* FINDING MultiLineOnlyMatchingColumnIsBlockRelative: theorem 11 says the column of a multi-line -o
+(* OBSERVATION OUTSIDE THE PROPERTY (C09's statement excludes only-matching; this refutes a natural
+   reading of --column under -U -o, not the property; not a known finding)
+   MultiLineOnlyMatchingColumnIsBlockRelative: theorem 11 says the column of a multi-line -o
    record is 1 + the submatch's start IN THE BLOCK.  So "the column is the submatch's column in its own
    line" (what line-oriented -o, --vimgrep and multi-line --vimgrep print) is false as soon as a block has
    a submatch that starts on a later line.  Witness = the real run
